@@ -40,6 +40,10 @@ def Found.render : Option Found → String
   | some fd => Gkv.hexOf fd.key ++ ":" ++ toString fd.prio ++ ":" ++
       (match fd.val with | some v => "h" ++ Gkv.hexOf v | none => "-")
 
+def renderVisitOut (out : List (Found × Nat)) (c : CTree) (rds : List Rd) : String :=
+  ",".intercalate (out.map fun x => Found.render (some x.1) ++ "@" ++ toString x.2) ++ " | " ++
+    ",".intercalate (rds.map Rd.render) ++ " | " ++ c.render
+
 def renderOut (res : Option Found) (c : CTree) (rds : List Rd) : String :=
   Found.render res ++ " | " ++ ",".intercalate (rds.map Rd.render) ++ " | " ++ c.render
 
